@@ -256,6 +256,8 @@ def run(ck, facts, tier):
     from . import c13
 
     c13.rule_comment_lexer(ck, facts, tier)
+    # layout: what the tokenizer makes of a text must not depend on blanks between tokens
+    c13.rule_lexer_model(ck, facts, tier, clauses=("munch", "layout"))
     ck.not_decided("invariance under whitespace, line breaks and redundant parentheses (behaviour of the rest of the chumsky tokenizer and of the parser on concrete texts)")
     ck.not_decided("that adding an agreeing annotation never changes inference results")
 
